@@ -1,7 +1,7 @@
 package textwire
 
 import (
-	"strings"
+	"path/filepath"
 	"sync/atomic"
 
 	"github.com/textwire/textwire/v2/config"
@@ -135,7 +135,7 @@ func Configure(opt *config.Config) {
 	}
 
 	if opt.TemplateDir != "" {
-		userConfig.TemplateDir = strings.Trim(opt.TemplateDir, "/")
+		userConfig.TemplateDir = filepath.Clean(opt.TemplateDir)
 	}
 
 	if opt.TemplateExt != "" {
